@@ -660,16 +660,58 @@ func (g *gen) style() *node {
 }
 
 func (g *gen) noscript() *node {
-	body := g.pick("ns", []string{"Please enable JavaScript", `<img src="/px.gif?a=1&amp;b=2" alt="">`, `<iframe src="//t.test/ns.html" height="0"></iframe>`, "a &amp; b", "<p>no js</p>"})
+	body := g.pick("ns", []string{"Please enable JavaScript", `<img src="/px.gif?a=1&amp;b=2" alt="">`, `<iframe src="//t.test/ns.html" height="0"></iframe>`, "a &amp; b", "<p>no js</p>",
+		"Scripts are off: the &lt;b&gt; menu &amp;amp; search will not work.", "use &amp;lt;noscript&amp;gt;", "&lt;p&gt;escaped&lt;/p&gt; <p>real</p>", "a &amp;amp; b &amp;frac12;", "&lt;!-- c --&gt; <b>x</b> &lt;/b&gt;",
+		"\n  <p>Enable  JS</p>\n  &lt;script&gt;\n"})
 	if strings.ContainsAny(body, "<>&") && g.avoid(fRawText) {
 		body = "Please enable JavaScript"
 	}
 	return &node{tag: "noscript", rawBody: body}
 }
 
+var nsAttrPool = [][2]string{
+	{"xlink:href", "#a"}, {"xlink:title", "t &amp; u"}, {"xlink:type", "simple"}, {"xlink:show", "new"}, {"xlink:actuate", "onLoad"}, {"xlink:role", "r"}, {"xlink:arcrole", "ar"},
+	{"xml:lang", "en"}, {"xml:space", "preserve"}, {"xml:base", "/b/"}, {"xmlns:xlink", "http://www.w3.org/1999/xlink"},
+}
+
+// nsAttrs draws attributes whose prefix the HTML5 parser splits off on svg / math elements
+// (xlink:*, xml:*, xmlns:xlink), alone or next to an un-prefixed attribute with the same local
+// name and another value (xml:lang="en" lang="de").
+func (g *gen) nsAttrs() []attr {
+	if g.avoid(fNsAttr) {
+		return nil
+	}
+	var out []attr
+	k := g.n("nsk", 0, 3)
+	seen := map[string]bool{}
+	for i := 0; i < k; i++ {
+		p := nsAttrPool[g.n("nsa", 0, len(nsAttrPool)-1)]
+		if seen[p[0]] {
+			continue
+		}
+		seen[p[0]] = true
+		local := attr{name: p[0][strings.Index(p[0], ":")+1:], val: "local-" + p[1], quote: '"', sep: " "}
+		ns := attr{name: p[0], val: strings.ReplaceAll(p[1], "&amp;", "&"), quote: '"', sep: " "}
+		switch g.n("nsl", 0, 3) {
+		case 0:
+			if !seen[local.name] {
+				out = append(out, local, ns)
+			}
+		case 1:
+			if !seen[local.name] {
+				out = append(out, ns, local)
+			}
+		default:
+			out = append(out, ns)
+		}
+		seen[local.name] = true
+	}
+	return out
+}
+
 // math draws a small MathML island (foreign content like svg).
 func (g *gen) math() *node {
-	root := &node{tag: "math", attrs: g.attrs("math")}
+	root := &node{tag: "math", attrs: append(g.attrs("math"), g.nsAttrs()...)}
 	root.kids = append(root.kids, &node{tag: "mi", inline: true, kids: []*node{{isText: true, text: "x"}}})
 	root.kids = append(root.kids, &node{tag: "mo", inline: true, kids: []*node{{isText: true, text: g.pick("mo", []string{"&lt;", "&gt;", "&amp;", "=", "&amp;lt;"})}}})
 	root.kids = append(root.kids, &node{tag: "mtext", inline: true, kids: []*node{g.text(false)}})
@@ -692,6 +734,7 @@ func (g *gen) svg() *node {
 	if ns && g.chance("xmlnsx", 2) {
 		root.attrs = append(root.attrs, attr{name: "xmlns:xlink", val: "http://www.w3.org/1999/xlink", quote: '"', sep: " "})
 	}
+	root.attrs = append(root.attrs, g.nsAttrs()...)
 	k := g.n("svgk", 1, 3)
 	for i := 0; i < k; i++ {
 		switch g.n("svgc", 0, 6) {
@@ -704,7 +747,7 @@ func (g *gen) svg() *node {
 			if ns && g.chance("xlink", 2) {
 				href = "xlink:href"
 			}
-			root.kids = append(root.kids, &node{tag: "use", void: true, slash: " /", attrs: []attr{{name: href, val: "#icon-{{ name }}", quote: '"', sep: " "}}})
+			root.kids = append(root.kids, &node{tag: "use", void: true, slash: " /", attrs: append([]attr{{name: href, val: "#icon-{{ name }}", quote: '"', sep: " "}}, g.nsAttrs()...)})
 		case 3:
 			root.kids = append(root.kids, &node{tag: "g", attrs: []attr{{name: "clip-path", val: "url(#c)", quote: '"', sep: " "}}, kids: []*node{
 				{tag: "clipPath", attrs: []attr{{name: "id", val: "c", sep: " "}}, kids: []*node{{tag: "rect", void: true, slash: "/", attrs: []attr{{name: "width", val: "1", sep: " "}}}}},
@@ -974,7 +1017,7 @@ func (g *gen) head() *node {
 	h := &node{tag: "head"}
 	k := g.n("headk", 0, 4)
 	for i := 0; i < k; i++ {
-		switch g.n("hk", 0, 6) {
+		switch g.n("hk", 0, 7) {
 		case 0:
 			h.kids = append(h.kids, &node{tag: "meta", void: true, attrs: []attr{{name: "charset", val: "utf-8", quote: byte(g.n("mq", 0, 1)) * '"', sep: " "}}, slash: g.pick("sl", []string{"", " /"})})
 		case 1:
@@ -989,6 +1032,12 @@ func (g *gen) head() *node {
 			h.kids = append(h.kids, g.script())
 		case 6:
 			h.kids = append(h.kids, g.comment())
+		case 7:
+			// scripting off: only link / meta / style stay inside a noscript in head
+			h.kids = append(h.kids, &node{tag: "noscript", rawBody: g.pick("hns", []string{
+				`<link rel="stylesheet" href="/ns.css?a=1&amp;b=2">`, "<style>.js-only { display: none }</style>", `<meta http-equiv="refresh" content="0; url=/nojs?a=1&amp;lt=2">`,
+				`<link rel="x" title="&lt;b&gt; &amp;amp;">`, "<style>a &gt; b {}</style><link rel=y>",
+			})})
 		}
 	}
 	return h
